@@ -210,6 +210,54 @@ static Ans ask(const TimeZone& tz, const Query& q) {
   return a;
 }
 
+// --- PARSE: a date-time line as it reaches the device over its serial console (the example apps set the clock and
+// the zone that way), possibly cut short or garbled on the way. C09 only: no crash / no UB / no read past the
+// terminator. The line is parsed three times: from a heap block of exactly strlen+1 bytes (ASan redzone right
+// behind the terminator) and from two longer blocks whose bytes BEHIND the terminator differ; the results must be
+// the same, whatever they are (a parser that runs past the terminator shows up without any sanitizer).
+static std::string parseRepr(const std::string& kind, const char* s) {
+  StrPrint sp;
+  if (kind == "ld") { LocalDate d = LocalDate::forDateString(s); if (d.isError()) return "E"; d.printTo(sp); }
+  else if (kind == "lt") { LocalTime d = LocalTime::forTimeString(s); if (d.isError()) return "E"; d.printTo(sp); }
+  else if (kind == "ldt") { LocalDateTime d = LocalDateTime::forDateString(s); if (d.isError()) return "E"; d.printTo(sp); }
+  else if (kind == "odt") { OffsetDateTime d = OffsetDateTime::forDateString(s); if (d.isError()) return "E"; d.printTo(sp); }
+  else if (kind == "zdt") { ZonedDateTime d = ZonedDateTime::forDateString(s); if (d.isError()) return "E"; d.printTo(sp); }
+  else if (kind == "off") { TimeOffset d = TimeOffset::forOffsetString(s); if (d.isError()) return "E"; d.printTo(sp); }
+  else return "?";
+  return std::string("V ") + sp.c_str();
+}
+
+static std::string unhex(const std::string& h) {
+  std::string o;
+  for (size_t i = 0; i + 1 < h.size(); i += 2) {
+    auto nib = [](char c) -> int { return c >= '0' && c <= '9' ? c - '0' : (c >= 'a' && c <= 'f' ? c - 'a' + 10 : (c >= 'A' && c <= 'F' ? c - 'A' + 10 : 0)); };
+    char c = (char)(nib(h[i]) * 16 + nib(h[i + 1]));
+    if (c == 0) break;   // a line ends at its first NUL
+    o += c;
+  }
+  return o;
+}
+
+static void doParse(const std::string& kind, const std::string& line, int opIndex, Verdict& v, Coverage& cov) {
+  const size_t n = line.size();
+  std::string r[3];
+  for (int k = 0; k < 3; k++) {
+    const size_t extra = k == 0 ? 0 : 12;
+    char* buf = (char*)malloc(n + 1 + extra);
+    memcpy(buf, line.data(), n);
+    buf[n] = 0;
+    for (size_t i = 0; i < extra; i++) buf[n + 1 + i] = k == 1 ? '0' : (char)('1' + (i * 7 + 3) % 9);
+    r[k] = parseRepr(kind, buf);
+    free(buf);
+  }
+  cov.count("c09.lines_parsed");
+  if (r[0] == "E") cov.count("c09.lines_rejected");
+  if (r[0] != r[1] || r[0] != r[2]) {
+    v.fail("c09-parse-past-terminator", fmt("parsing the %zu-character line \"%s\" as %s gives %s, %s or %s depending on the bytes "
+        "that follow its terminator", n, line.c_str(), kind.c_str(), r[0].c_str(), r[1].c_str(), r[2].c_str()), opIndex);
+  }
+}
+
 // --- poison-filled storage. Heap blocks of exactly the object's size, so that under ASan an access
 // past the end of a processor / manager hits a redzone, filled with a seed-drawn byte before
 // placement construction, so that nothing depends on what the allocator left behind.
@@ -889,6 +937,9 @@ void TzDevice::exec(const std::vector<std::string>& t, int opIndex, Verdict& v, 
     store[k].bytes[pos] = (uint8_t)tokInt(t, 3, 0);
     store[k].torn = true;
     cov.count("fault.torn_store_byte");
+  } else if (op == "PARSE") {  // PARSE <ld|lt|ldt|odt|zdt|off> <hex of the line>
+    if (!opts.armC09 || t.size() < 3) return;
+    doParse(t[1], unhex(t[2]), opIndex, v, cov);
   } else if (op == "REBOOT") {
     dropVolatile();
     poison = (uint8_t)kvInt(t, "poison", poison);
@@ -1387,6 +1438,14 @@ struct Gen {
       bool ext = rng.chance(1, 2);
       int z = (ext ? xz : bz)[rng.below((ext ? xz : bz).size())];
       unsigned h = (unsigned)rng.below(10);
+      if (h == 5) {
+        // createForZoneIndex: an index into whatever registry the manager was given (small indices also hit subsets)
+        int full = ext ? zonedbx::kZoneRegistrySize : zonedb::kZoneRegistrySize;
+        int k = rng.chance(1, 2) ? (int)rng.below(6) : (int)rng.below((uint64_t)full);
+        line(fmt("TZ %d %s %d # by index", slot, ext ? "xmgri" : "bmgri", k));
+        ckind[slot] = ext ? K_XMGR : K_BMGR; czone[slot] = -1;
+        return;
+      }
       const char* how = h < 6 ? (ext ? "xmgr" : "bmgr") : (h < 8 ? (ext ? "xmgrid" : "bmgrid") : (ext ? "xdata" : "bdata"));
       line(fmt("TZ %d %s %d # %s", slot, how, z, zoneName(ext ? K_XMGR : K_BMGR, shippedZone(ext, z))));
       ckind[slot] = ext ? K_XMGR : K_BMGR; czone[slot] = z;
@@ -1468,6 +1527,37 @@ struct Gen {
     if (k < 92) return "print";
     if (k < 97) return "prints";
     return "zid";
+  }
+
+  // a console line: well-formed, cut short at any length, garbled in one character, or with something appended
+  std::string drawParse() {
+    static const char* kinds[] = {"ld", "lt", "ldt", "odt", "zdt", "off"};
+    const char* kind = kinds[rng.below(6)];
+    std::string date = fmt("%04d-%02d-%02d", (int)rng.range(1990, 2060), (int)rng.range(1, 12), (int)rng.range(1, 28));
+    std::string time = fmt("%02d:%02d:%02d", (int)rng.range(0, 23), (int)rng.range(0, 59), (int)rng.range(0, 59));
+    std::string off = fmt("%c%02d:%02d", rng.chance(1, 2) ? '+' : '-', (int)rng.range(0, 14), (int)(15 * rng.below(4)));
+    std::string k = kind, sline;
+    if (k == "ld") sline = date; else if (k == "lt") sline = time; else if (k == "ldt") sline = date + "T" + time;
+    else if (k == "off") sline = off; else sline = date + "T" + time + off;
+    unsigned m = (unsigned)rng.below(100);
+    if (m < 35) {
+    } else if (m < 65) {
+      sline = sline.substr(0, (size_t)rng.below(sline.size() + 1));                       // cut short
+    } else if (m < 80) {
+      if (!sline.empty()) {
+        static const char junk[] = "Z+-:T /0x9a";
+        size_t at = (size_t)rng.below(sline.size());
+        sline[at] = rng.chance(1, 2) ? junk[rng.below(sizeof junk - 1)] : (char)rng.range(1, 255);   // garbled
+      }
+    } else if (m < 90) {
+      sline += rng.chance(1, 2) ? "Z" : "[UTC]";                                       // something appended
+    } else {
+      sline = sline.substr(0, (size_t)rng.below(sline.size() + 1)) + (rng.chance(1, 2) ? "Z" : "+");  // cut short, then a suffix
+    }
+    std::string hex;
+    for (size_t i = 0; i < sline.size(); i++) hex += fmt("%02x", (unsigned)(uint8_t)sline[i]);
+    if (hex.empty()) hex = "00";
+    return fmt("PARSE %s %s", kind, hex.c_str());
   }
 
   int liveClient() {
@@ -1575,7 +1665,8 @@ struct Gen {
         line(fmt("MANSET %d %s %d", liveClient(), rng.chance(1, 2) ? "std" : "dst", (int)rng.range(-960, 960)));
       } else {
         unsigned r = (unsigned)rng.below(100);
-        if (r < 30) line("LOOP");
+        if (rng.chance(1, 8)) line(drawParse());
+        else if (r < 30) line("LOOP");
         else if (r < 50) line(fmt("ADV %lld", (long long)(rng.chance(1, 2) ? rng.range(1, 1500) : rng.range(1000, 70000))));
         else if (r < 60) line("GET");
         else if (r < 70) line(fmt("SET %lld", (long long)(rng.chance(1, 6) ? (int64_t)kInvalid : (rng.chance(1, 3) ? (int64_t)rng.range(-2147483647LL + 20000000, 2147483647LL - 20000000) : (int64_t)rng.range(0, 1600000000)))));
